@@ -83,6 +83,32 @@ package pokerface
 //@      ==> SUMW(g, k) == old(SUMW(g, k)) + ite(x < k, g.gs.Players[x].Wager - old(g.gs.Players[x].Wager), 0)
 //@ lemma SUMW_zero(g *game, k int) for SUMW induction k : (forall i :: 0 <= i && i < k ==> g.gs.Players[i].Wager == 0) ==> SUMW(g, k) == 0
 
+// C06 (the hand ends after a bounded number of steps): the measure of a betting round. Chips still behind (SUMS) and
+// seats that have not acted since the last raise (CNA); every accepted action lowers (SUMS, CNA) lexicographically.
+//@ fun SUMS(g *game, k int) int = ite(k <= 0, 0, SUMS(g, k - 1) + g.gs.Players[k - 1].StackSize)
+//@ lemma SUMS_same(g *game, k int) for SUMS induction k :
+//@      (forall i :: 0 <= i && i < k ==> g.gs.Players[i] == old(g.gs.Players[i]) && g.gs.Players[i].StackSize == old(g.gs.Players[i].StackSize))
+//@      ==> SUMS(g, k) == old(SUMS(g, k))
+//@ lemma SUMS_one(g *game, k int) for SUMS induction k :
+//@      forall x :: 0 <= x && (forall i :: 0 <= i && i < k ==> g.gs.Players[i] == old(g.gs.Players[i])
+//@                     && (i != x ==> g.gs.Players[i].StackSize == old(g.gs.Players[i].StackSize)))
+//@      ==> SUMS(g, k) == old(SUMS(g, k)) + ite(x < k, g.gs.Players[x].StackSize - old(g.gs.Players[x].StackSize), 0)
+//@ fun CNA(g *game, k int) int = ite(k <= 0, 0, CNA(g, k - 1) + ite(g.gs.Players[k - 1].Acted, 0, 1))
+//@ lemma CNA_same(g *game, k int) for CNA induction k :
+//@      (forall i :: 0 <= i && i < k ==> g.gs.Players[i] == old(g.gs.Players[i]) && (g.gs.Players[i].Acted <==> old(g.gs.Players[i].Acted)))
+//@      ==> CNA(g, k) == old(CNA(g, k))
+//@ lemma CNA_one(g *game, k int) for CNA induction k :
+//@      forall x :: 0 <= x && (forall i :: 0 <= i && i < k ==> g.gs.Players[i] == old(g.gs.Players[i])
+//@                     && (i != x ==> (g.gs.Players[i].Acted <==> old(g.gs.Players[i].Acted))))
+//@                  && (x < k ==> !old(g.gs.Players[x].Acted) && g.gs.Players[x].Acted)
+//@      ==> CNA(g, k) == old(CNA(g, k)) - ite(x < k, 1, 0)
+// the measure is bounded from below
+//@ lemma SUMS_nonneg(g *game, k int) for SUMS induction k props C06 : (forall i :: 0 <= i && i < k ==> g.gs.Players[i].StackSize >= 0) ==> SUMS(g, k) >= 0
+//@ lemma CNA_range(g *game, k int) for CNA induction k props C06 : 0 <= CNA(g, k) && CNA(g, k) <= ite(k < 0, 0, k)
+// an accepted action that leaves the round open has lowered the measure
+//@ pred DECR(g) = SUMS(g, len(g.gs.Players)) < old(SUMS(g, len(g.gs.Players)))
+//@    || (SUMS(g, len(g.gs.Players)) == old(SUMS(g, len(g.gs.Players))) && CNA(g, len(g.gs.Players)) < old(CNA(g, len(g.gs.Players))))
+
 // pay: the single place where chips move from a stack to the table.
 //@ func (*player).pay(p, chips, isWager) (err)
 //@   props C01 C11 C12 C13
@@ -281,7 +307,7 @@ package pokerface
 //@ pred ROUNDPOT(g) = g.gs.Status.CurrentRoundPot == SUMW(g, len(g.gs.Players))
 
 //@ pred WAITINV(g) = ENGINE(g) && DECKOK(g) && TABLE(g) && WAITSET(g) && ROUNDPOT(g)
-//@    && (g.gs.Status.CurrentEvent == "RoundStarted" ==> TURN(g) && g.gs.Status.Round != "")
+//@    && (g.gs.Status.CurrentEvent == "RoundStarted" ==> TURN(g) && g.gs.Status.Round != "" && !g.gs.Players[g.gs.Status.CurrentPlayer].Acted)
 //@    && (g.gs.Status.CurrentEvent != "RoundStarted" ==> ALLIDLE(g))
 //@    && (g.gs.Status.CurrentEvent == "AnteRequested" ==> g.gs.Status.Round == "" && ZEROBETS(g) && g.gs.Meta.Ante > 0)
 //@    && (g.gs.Status.CurrentEvent == "BlindsRequested" ==> g.gs.Status.Round == "preflop" && ZEROBETS(g) && g.gs.Status.PreviousRaiseSize == 0)
@@ -505,6 +531,8 @@ package pokerface
 //@   ensures !old(hasStr(p.state.AllowedActions, "pass")) ==> UNCH()
 //@   ensures old(hasStr(p.state.AllowedActions, "pass")) ==> err == nil && AFTERACTION(p.game) && NOCHIPMOVE()
 //@             && p.game.gs.Status.PreviousRaiseSize == old(p.game.gs.Status.PreviousRaiseSize)
+//@   -- C06: an accepted action that leaves the betting round open has lowered the measure (chips behind, seats still to act)
+//@   ensures [C06] err == nil && old(p.game.gs.Status.CurrentEvent) == "RoundStarted" && p.game.gs.Status.CurrentEvent == "RoundStarted" ==> DECR(p.game)
 
 //@ func (*player).Fold(p) (err)
 //@   props C04 C11 C07
@@ -514,6 +542,8 @@ package pokerface
 //@   ensures [C04] !old(hasStr(p.state.AllowedActions, "fold")) ==> err == ErrInvalidAction && UNCH()
 //@   ensures old(hasStr(p.state.AllowedActions, "fold")) ==> err == nil && AFTERACTION(p.game) && NOCHIPMOVE() && p.state.Fold
 //@             && p.game.gs.Status.PreviousRaiseSize == old(p.game.gs.Status.PreviousRaiseSize)
+//@   -- C06: an accepted action that leaves the betting round open has lowered the measure (chips behind, seats still to act)
+//@   ensures [C06] err == nil && old(p.game.gs.Status.CurrentEvent) == "RoundStarted" && p.game.gs.Status.CurrentEvent == "RoundStarted" ==> DECR(p.game)
 
 //@ func (*player).Check(p) (err)
 //@   props C04 C11 C07
@@ -523,6 +553,7 @@ package pokerface
 //@   ensures [C04] !old(hasStr(p.state.AllowedActions, "check")) ==> err == ErrInvalidAction && UNCH()
 //@   ensures old(hasStr(p.state.AllowedActions, "check")) ==> err == nil && AFTERACTION(p.game) && NOCHIPMOVE()
 //@             && p.game.gs.Status.PreviousRaiseSize == old(p.game.gs.Status.PreviousRaiseSize)
+//@   ensures [C06] old(hasStr(p.state.AllowedActions, "check")) && p.game.gs.Status.CurrentEvent == "RoundStarted" ==> DECR(p.game)
 
 //@ func (*player).Call(p) (err)
 //@   props C04 C11 C12 C01 C07
@@ -534,6 +565,8 @@ package pokerface
 //@   ensures [C11] old(hasStr(p.state.AllowedActions, "call")) ==> p.state.Wager == p.game.gs.Status.CurrentWager
 //@   ensures [C12] p.game.gs.Status.CurrentWager >= old(p.game.gs.Status.CurrentWager)
 //@             && p.game.gs.Status.PreviousRaiseSize == old(p.game.gs.Status.PreviousRaiseSize)
+//@   -- C06: an accepted action that leaves the betting round open has lowered the measure (chips behind, seats still to act)
+//@   ensures [C06] err == nil && old(p.game.gs.Status.CurrentEvent) == "RoundStarted" && p.game.gs.Status.CurrentEvent == "RoundStarted" ==> DECR(p.game)
 
 //@ func (*player).Allin(p) (err)
 //@   props C04 C11 C12 C01 C07
@@ -545,6 +578,8 @@ package pokerface
 //@   ensures [C11] old(hasStr(p.state.AllowedActions, "allin")) ==> p.state.Wager == old(p.state.InitialStackSize) && p.state.StackSize == 0
 //@   ensures [C12] p.game.gs.Status.CurrentWager >= old(p.game.gs.Status.CurrentWager)
 //@             && p.game.gs.Status.PreviousRaiseSize >= old(p.game.gs.Status.PreviousRaiseSize)
+//@   -- C06: an accepted action that leaves the betting round open has lowered the measure (chips behind, seats still to act)
+//@   ensures [C06] err == nil && old(p.game.gs.Status.CurrentEvent) == "RoundStarted" && p.game.gs.Status.CurrentEvent == "RoundStarted" ==> DECR(p.game)
 
 //@ func (*player).Bet(p, chips) (err)
 //@   props C04 C11 C12 C01 C07
@@ -558,6 +593,8 @@ package pokerface
 //@   ensures [C12] p.game.gs.Status.CurrentWager >= old(p.game.gs.Status.CurrentWager)
 //@   -- a negative amount is refused and nothing changes (C12: no amount can make a wager, stack or pot negative)
 //@   ensures [C12] chips < 0 ==> err == ErrInvalidAction && UNCH()
+//@   -- C06: an accepted action that leaves the betting round open has lowered the measure (chips behind, seats still to act)
+//@   ensures [C06] err == nil && old(p.game.gs.Status.CurrentEvent) == "RoundStarted" && p.game.gs.Status.CurrentEvent == "RoundStarted" ==> DECR(p.game)
 
 //@ func (*player).Raise(p, chipLevel) (err)
 //@   props C04 C12 C01 C07
@@ -582,6 +619,8 @@ package pokerface
 //@             ==> err != nil || p.state.StackSize == 0
 //@   ensures [C12] p.game.gs.Status.CurrentWager >= old(p.game.gs.Status.CurrentWager)
 //@             && p.game.gs.Status.PreviousRaiseSize >= old(p.game.gs.Status.PreviousRaiseSize)
+//@   -- C06: an accepted action that leaves the betting round open has lowered the measure (chips behind, seats still to act)
+//@   ensures [C06] err == nil && old(p.game.gs.Status.CurrentEvent) == "RoundStarted" && p.game.gs.Status.CurrentEvent == "RoundStarted" ==> DECR(p.game)
 
 //@ func (*player).Pay(p, chips) (err)
 //@   props C04 C12 C07
